@@ -5,7 +5,14 @@ LEVEL = "proof"
 
 
 def run(chk):
-    build, oracle, tables = emucheck.setup(chk, extra_units=("guards", "chan", "sys"))
+    # "cpuc": find_thread of cpu.c with its search loop, and its four callers, regenerated (C05_cpu_lists_from_source)
+    build, oracle, tables = emucheck.setup(chk, extra_units=("guards", "chan", "sys", "cpuc"))
+    chk.trusted_base = list(getattr(chk, "trusted_base", [])) + [
+        "translate/units/cpuc.py + translate/units/_stagec.py: find_thread (DL_FOREACH2 search loop, checked to be the macro's expansion, "
+        "body translated), cpu_update, cpu_add_thread, cpu_remove_thread, cpu_migrate_thread of src/emu/cpu.c translated on every run over "
+        "coq/Emu/SysPre.v + coq/Emu/CpuCPre.v (dl_search: the elements of cpu->threads visited in list order until the body returns); "
+        "the utlist macros DL_APPEND2 / DL_DELETE2 stay primitives (append / remove on the list)",
+    ]
     chk.assumptions = ["a remote affinity change to the CPU the thread is already on is refused by the emulator; the property does not "
                        "say, so the decider demands nothing for it", "distinct clocks per event"]
     rng = chk.rng
